@@ -197,47 +197,137 @@ def rule_vetting(repo, rep):
       if isinstance(a, ast.Name) and a.id in defs or \
               (isinstance(a, ast.Name) and a.id == 'M'):
         Mname = a.id
-  spd_ok = fin_ok = False
+  def dn(e):
+    d = repo.dotted(f.module, e)
+    return canon(d) if d else None
+
+  def quant(e, neg=False):
+    """-> (quantifier, element predicate node, negated?) or None"""
+    if isinstance(e, ast.UnaryOp) and isinstance(e.op, ast.Not):
+      return quant(e.operand, not neg)
+    if isinstance(e, ast.Call) and isinstance(e.func, ast.Name) and \
+            e.func.id == 'bool' and len(e.args) == 1:
+      return quant(e.args[0], neg)
+    q = el = None
+    if isinstance(e, ast.Call) and len(e.args) == 1 and not e.keywords and (
+            (isinstance(e.func, ast.Name) and e.func.id in ('any', 'all')) or
+            dn(e.func) in (canon('numpy.any'), canon('numpy.all'))):
+      q = 'any' if ast.unparse(e.func).endswith('any') else 'all'
+      el = e.args[0]
+    elif isinstance(e, ast.Call) and not e.args and not e.keywords and \
+            isinstance(e.func, ast.Attribute) and e.func.attr in ('any', 'all'):
+      q, el = e.func.attr, e.func.value
+    elif isinstance(e, ast.Compare) and len(e.ops) == 1:
+      # min(E) < 0  <=>  any(E < 0)
+      l, r = e.left, e.comparators[0]
+      op = e.ops[0]
+      if isinstance(r, ast.Constant) and r.value == 0 and \
+              isinstance(op, (ast.Lt, ast.LtE)):
+        m = l
+        inner = None
+        if isinstance(m, ast.Call) and not m.keywords:
+          if isinstance(m.func, ast.Attribute) and m.func.attr == 'min' and \
+                  not m.args:
+            inner = m.func.value
+          elif len(m.args) == 1 and (
+                  (isinstance(m.func, ast.Name) and m.func.id == 'min') or
+                  dn(m.func) in (canon('numpy.min'), canon('numpy.amin'))):
+            inner = m.args[0]
+        if inner is not None:
+          q = 'any'
+          el = ast.Compare(left=inner, ops=[op], comparators=[r])
+    if q is None:
+      return None
+    # not any(P) = all(not P); not all(P) = any(not P)
+    if neg:
+      return ('all' if q == 'any' else 'any', el, True)
+    return (q, el, False)
+
+  def elem(e, neg):
+    """-> ('neg', vector name) | ('nonfinite', matrix name) | ('other',)"""
+    if isinstance(e, ast.UnaryOp) and isinstance(e.op, ast.Invert):
+      return elem(e.operand, not neg)
+    if isinstance(e, ast.Compare) and len(e.ops) == 1 and not neg:
+      l, r, op = e.left, e.comparators[0], e.ops[0]
+      if isinstance(op, (ast.Gt, ast.GtE)):
+        l, r = r, l
+        op = ast.Lt() if isinstance(op, ast.Gt) else ast.LtE()
+      if isinstance(op, (ast.Lt, ast.LtE)) and isinstance(r, ast.Constant) \
+              and r.value == 0 and isinstance(l, ast.Name):
+        return ('neg', l.id)
+    if isinstance(e, ast.Call) and len(e.args) == 1 and not e.keywords and \
+            isinstance(e.args[0], ast.Name):
+      d = dn(e.func)
+      if d == canon('numpy.isfinite') and neg:
+        return ('nonfinite', e.args[0].id)
+      if d == canon('numpy.isfinite') and not neg:
+        return ('finite', e.args[0].id)
+    return ('other',)
+
+  def spectrum_of_M(nm):
+    for n2 in ast.walk(f.node):
+      if not isinstance(n2, ast.Assign) or not isinstance(n2.value, ast.Call):
+        continue
+      d = dn(n2.value.func)
+      args_ = [ast.unparse(a) for a in n2.value.args]
+      if args_[:1] != [Mname]:
+        continue
+      tg = n2.targets[0]
+      if d in (canon('numpy.linalg.eigh'), canon('scipy.linalg.eigh')) and \
+              isinstance(tg, ast.Tuple) and tg.elts and \
+              isinstance(tg.elts[0], ast.Name) and tg.elts[0].id == nm:
+        return True
+      if d in (canon('numpy.linalg.eigvalsh'), canon('scipy.linalg.eigvalsh'))\
+              and isinstance(tg, ast.Name) and tg.id == nm:
+        return True
+    return False
+
+  res = {'not_spd': [], 'not_finite': []}
   for fl in flags:
     for v in defs.get(fl, []):
-      txt = ast.unparse(v)
       if isinstance(v, ast.Constant):
         continue
-      names = [x.id for x in ast.walk(v) if isinstance(x, ast.Name)]
-      if Mname and txt in ('not np.isfinite(%s).all()' % Mname,
-                           'not np.all(np.isfinite(%s))' % Mname,
-                           'np.any(~np.isfinite(%s))' % Mname,
-                           '(~np.isfinite(%s)).any()' % Mname,
-                           'not bool(np.isfinite(%s).all())' % Mname):
-        fin_ok = True
-      for nm in names:
-        for src in defs.get(nm, []):
-          pass
-      if (txt.startswith('any(') or txt.startswith('np.any(') or
-              txt.endswith('.any()') or 'min(' in txt or '.min()' in txt) and \
-              ('< 0' in txt or '<= 0' in txt) and 'all(' not in txt:
-        # the compared vector must be the spectrum of M
-        for nm in names:
-          for n2 in ast.walk(f.node):
-            if isinstance(n2, ast.Assign) and isinstance(n2.targets[0],
-                                                         ast.Tuple):
-              tn = [e.id for e in n2.targets[0].elts
-                    if isinstance(e, ast.Name)]
-              if nm in tn and 'eigh' in ast.unparse(n2.value) and \
-                      Mname in [x.id for x in ast.walk(n2.value)
-                                if isinstance(x, ast.Name)]:
-                spd_ok = True
-            if isinstance(n2, ast.Assign) and isinstance(n2.targets[0],
-                                                         ast.Name) and \
-                    n2.targets[0].id == nm and 'eigvalsh' in \
-                    ast.unparse(n2.value):
-              spd_ok = True
-  rep.add(R, 'sdml._BaseSDML._fit:not_spd', 'derived' if spd_ok else
-          'refuted', site(f, guard), '' if spd_ok else 'no flag derived from '
-          'a negative eigenvalue of the solver result')
-  rep.add(R, 'sdml._BaseSDML._fit:not_finite', 'derived' if fin_ok else
-          'refuted', site(f, guard), '' if fin_ok else 'no flag derived from '
-          'np.isfinite of the solver result')
+      qv = quant(v)
+      if qv is None:
+        res['not_spd'].append(('unknown', fl, ast.unparse(v)))
+        res['not_finite'].append(('unknown', fl, ast.unparse(v)))
+        continue
+      q, el, ng = qv
+      kind = elem(el, ng)
+      if kind[0] == 'neg':
+        if not spectrum_of_M(kind[1]):
+          res['not_spd'].append(('unknown', fl, ast.unparse(v)))
+        else:
+          res['not_spd'].append(('ok' if q == 'any' else 'bad', fl,
+                                 ast.unparse(v)))
+      elif kind[0] == 'nonfinite' and kind[1] == Mname:
+        res['not_finite'].append(('ok' if q == 'any' else 'bad', fl,
+                                  ast.unparse(v)))
+      elif kind[0] == 'finite' and kind[1] == Mname:
+        # any(finite) / all(finite) without negation is not a failure flag
+        res['not_finite'].append(('bad', fl, ast.unparse(v)))
+      else:
+        res['not_spd'].append(('unknown', fl, ast.unparse(v)))
+        res['not_finite'].append(('unknown', fl, ast.unparse(v)))
+  for what, txt_ in (('not_spd', 'a negative eigenvalue of the solver '
+                      'result'),
+                     ('not_finite', 'a non-finite entry of the solver '
+                      'result')):
+    rs = res[what]
+    key = 'sdml._BaseSDML._fit:' + what
+    if any(r[0] == 'ok' for r in rs) and not any(r[0] == 'bad' for r in rs):
+      rep.derived(R, key, site(f, guard))
+    elif any(r[0] == 'bad' for r in rs):
+      b = [r for r in rs if r[0] == 'bad'][0]
+      rep.refuted(R, key, site(f, guard), 'flag %s = %s does not mean '
+                  '"there is %s"' % (b[1], b[2], txt_))
+    elif any(r[0] == 'unknown' for r in rs):
+      u = [r for r in rs if r[0] == 'unknown'][0]
+      rep.unknown(R, key, site(f, guard), 'flag %s = %s is not a recognised '
+                  'predicate form' % (u[1], u[2]))
+    else:
+      rep.refuted(R, key, site(f, guard), 'no flag of the guard is derived '
+                  'from %s' % txt_)
 
 
 def rule_forms(repo, rep):
